@@ -14,6 +14,8 @@ use crate::symbol::with_symbol_table;
 use crate::{dprintln, features};
 
 pub use self::breakpoint::{Breakpoint, Breakpoints};
+#[cfg(lace_verif)]
+pub use self::command::VerifTerminal;
 
 /// Leave this as a struct, in case more options are added in the future. Plus it is more explicit.
 #[derive(Debug)]
@@ -146,6 +148,14 @@ impl Debugger {
         self.asm_source.orig()
     }
 
+    #[cfg(lace_verif)]
+    pub(super) fn verif_breakpoints(&self) -> Vec<(u16, bool)> {
+        self.breakpoints
+            .iter()
+            .map(|bp| (bp.address, bp.is_predefined))
+            .collect()
+    }
+
     pub(super) fn increment_instruction_count(&mut self) {
         self.instruction_count += 1;
     }
@@ -186,6 +196,8 @@ impl Debugger {
 
         // `HALT` and breakpoints should be already handled (above)
         loop {
+            #[cfg(lace_verif)]
+            crate::verif::status_loop(state);
             match &mut self.status {
                 Status::WaitForAction => {
                     // Continue loop until action is given
